@@ -262,6 +262,28 @@ func c13AllShapes() map[string]func() interface{} {
 		return &c13Host{c13emb: c13emb{X: "a", N: 1}, c13embp: &c13embp{Y: "b"}, Name: "n", BA: [4]byte{1, 2, 3, 4}, H: c13hash{9}, HS: []c13hash{{1}, {1}}, BAA: [2][4]byte{{1}, {1}}, RM: json.RawMessage(`{"a":1}`)}
 	}
 	m["host-zero"] = func() interface{} { return &c13Host{} }
+	// more than a thousand objects in one call (each carries its own groups and clauses: per-call tables grow past any small bound)
+	m["many-leaves"] = func() interface{} {
+		out := make([]*lib.Leaf, 1100)
+		for i := range out {
+			out[i] = &lib.Leaf{Name: "n", G1: "x", G2: "y"}
+		}
+		return out
+	}
+	m["many-leaves-by-key"] = func() interface{} {
+		out := make(map[int]lib.Leaf, 1030)
+		for i := 0; i < 1030; i++ {
+			out[i] = lib.Leaf{G1: "x"}
+		}
+		return out
+	}
+	m["many-maps"] = func() interface{} {
+		out := make([]map[string]string, 1100)
+		for i := range out {
+			out[i] = map[string]string{"k": "a", "z": ""}
+		}
+		return out
+	}
 	m["byte-array"] = func() interface{} { return [4]byte{1, 2, 3, 4} }
 	m["named-byte-array"] = func() interface{} { return c13hash{7} }
 	m["slice-of-byte-arrays"] = func() interface{} { return [][4]byte{{1}, {1}} }
@@ -417,6 +439,9 @@ func TestC13(t *testing.T) {
 				for _, r := range rules {
 					if e == "FSPaths" && sh != "string" {
 						continue // this entry brings its own values: one pass over the rule texts is enough
+					}
+					if strings.HasPrefix(sh, "many-") && !strings.Contains(r, "either") && !strings.Contains(r, "botheq") && len(r)%5 != 0 {
+						continue // the crowded shapes meet every group rule and a fifth of the other texts
 					}
 					idx++
 					if idx%nshard != shard {
